@@ -191,6 +191,9 @@ func sameReply(cmd string, a, b model.Val) bool {
 
 func c14Shape(cmd []string, tmpl []string) string {
 	var parts []string
+	if len(cmd) > 0 && len(tmpl) > 0 && !strings.EqualFold(cmd[0], tmpl[0]) {
+		parts = append(parts, "name-altered")
+	}
 	for i := 1; i < len(cmd); i++ {
 		cls := "same"
 		if i >= len(tmpl) || cmd[i] != tmpl[i] {
@@ -230,6 +233,12 @@ func c14Programs(depth2 bool) (progs [][][]string, tmplOf [][]string) {
 				progs = append(progs, [][]string{c})
 				tmplOf = append(tmplOf, t)
 			}
+		}
+		// hostile command-name elements: a space, CRLF, non-UTF-8 or nothing inside element 0
+		for _, nm := range []string{t[0] + " x", strings.ToLower(t[0]) + " k injected", t[0] + "\r\n", t[0] + "\xff", " " + t[0], t[0] + " ", ""} {
+			c := append([]string{nm}, t[1:]...)
+			progs = append(progs, [][]string{c}, [][]string{{nm}}, [][]string{c, {"GET", "k"}})
+			tmplOf = append(tmplOf, t, t, t)
 		}
 		// command name in other letter cases
 		for _, nm := range []string{strings.ToLower(t[0]), strings.ToUpper(t[0][:1]) + strings.ToLower(t[0][1:])} {
